@@ -60,6 +60,7 @@ def plan(tier, seed):
     shards.append({'kind': 'placed', 'n': 3000 if tier == 'quick' else 60000})
     for part in range(4):
         shards.append({'kind': 'scales', 'part': part, 'parts': 4})
+    shards.append({'kind': 'scales', 'ints': True})
     return shards
 
 
@@ -202,6 +203,14 @@ def run_scales(shard, ctx):
     cases = []
     if 'text' in shard:
         cases = [(shard['text'], shard['digits'])]
+    elif shard.get('ints'):
+        # whole numbers supplied as ints (what openpyxl hands over for 25, what a user overrides with): ties at every power of ten,
+        # preceding digit even and odd, digit counts -6..2
+        ints = sorted({m * 10 ** k for m in (5, 15, 25, 35, 45, 50, 65, 85, 105, 125, 250, 1234, 4445, 4450, 5000, 9995, 99995, 1, 2, 9) for k in range(0, 5)} | {0, 7, 12, 123, 99999})
+        for v in ints:
+            for n in range(-6, 3):
+                for sign in ('', '-'):
+                    cases.append((sign + str(v), n))
     else:
         k_all = list(range(-11, 16))
         for mi, m in enumerate(MANTISSAS):
@@ -222,7 +231,7 @@ def run_scales(shard, ctx):
                     for sign in ('', '-'):
                         cases.append((sign + text, n))
     for text, n in cases:
-        x = float(text)
+        x = int(text) if shard.get('ints') or (shard.get('as_int') and '.' not in text) else float(text)
         ov = [(0, 'A1', x), (0, 'B1', n)]
         fns = [(fn, cell) for fn, cell in FCELL.items() if not ('fn' in shard and shard['fn'] != fn)]
         rot += 1
@@ -245,7 +254,7 @@ def run_scales(shard, ctx):
 def run_shard(shard, ctx):
     if 'replay' in shard and shard['replay'].get('how') == 'scales':
         c = shard['replay']
-        return run_scales({'text': c['text'], 'digits': c['digits'], 'fn': c['fn']}, ctx)
+        return run_scales({'text': c['text'], 'digits': c['digits'], 'fn': c['fn'], 'as_int': True}, ctx)
     if 'replay' in shard:
         c = shard['replay']
         text = c['text']
